@@ -5,6 +5,9 @@ package main
 
 import (
 	"bufio"
+	"bytes"
+	"crypto/sha256"
+	"crypto/sha512"
 	"encoding/json"
 	"flag"
 	"fmt"
@@ -68,6 +71,20 @@ func (s *snode) String() string {
 }
 
 var msgs = [][]byte{[]byte("message zero"), []byte("message one"), []byte("message one "), {}, []byte("\x00")}
+
+func init() {
+	// long messages, their digests (a verifier that digests first must not take one for the other), and two long messages
+	// that differ in the last byte only
+	for _, n := range []int{4096, 4097, 70000} {
+		m := bytes.Repeat([]byte("0123456789abcdef"), n/16+1)[:n]
+		msgs = append(msgs, m)
+		d256, d512 := sha256.Sum256(m), sha512.Sum512(m)
+		msgs = append(msgs, d256[:], d512[:])
+	}
+	m := append([]byte{}, msgs[len(msgs)-3]...)
+	m[len(m)-1] ^= 1
+	msgs = append(msgs, m)
+}
 
 func (s *snode) bytes(r *rng.R) []byte {
 	if s.leaf {
@@ -185,6 +202,21 @@ func main() {
 		for n := r.Intn(3); n > 0; n-- {
 			kind = mutate(r, s)
 		}
+		if r.Chance(1, 8) { // everybody signs a long message (or its digest); the verifier is given the other one
+			m = 5 + r.Intn(len(msgs)-5)
+			o := m + 1 + r.Intn(2)
+			if (m-5)%3 != 0 || o >= len(msgs) {
+				o = 5 + 3*((m-5)/3)
+			}
+			if m == len(msgs)-1 {
+				o = len(msgs) - 4
+			}
+			s = honest(k, o)
+			kind = "related-long-message"
+			if o == m {
+				kind = "honest-long-message"
+			}
+		}
 		res := "false"
 		func() {
 			defer func() {
@@ -200,165 +232,198 @@ func main() {
 		emit(fmt.Sprintf("V %s %d %s", k.String(), m, s.String()), res)
 	}
 	// ---------------- keybase
-	kb := keys.NewInMemory()
-	type ent struct {
-		id   int
-		addr types.Address
-	}
-	var known []ent               // keys ever created (id = order of creation)
-	armors := map[string]string{} // model armor "id/pass" -> real armor
-	long := strings.Repeat("long", 40)
-	// long passphrases that agree on a long prefix: a wrong one must not open what the right one sealed
-	passes := []string{"", "pw", "pässwörd-ünïcode", long, "x", long + "!", long[:len(long)-1] + "X", long[:72], long[:56] + "?"}
-	pass := func() string { return passes[r.Intn(len(passes))] }
-	cur := map[int]string{} // passphrase each key is currently sealed under (driver bookkeeping for generation only)
-	passFor := func(id int) string {
-		if p, ok := cur[id]; ok && r.Chance(7, 10) {
-			return p
-		}
-		return pass()
-	}
-	hexs := func(s string) string {
-		if s == "" {
-			return "."
-		}
-		return fmt.Sprintf("%x", s)
-	}
-	list := func() string {
-		kps, _ := kb.List()
-		var xs []string
-		for _, kp := range kps {
-			for _, e := range known {
-				if e.addr.Equals(kp.GetAddress()) {
-					xs = append(xs, fmt.Sprint(e.id))
-				}
-			}
-		}
-		sort.Slice(xs, func(i, j int) bool {
-			var a, b int
-			fmt.Sscan(xs[i], &a)
-			fmt.Sscan(xs[j], &b)
-			return a < b
-		})
-		return "[" + strings.Join(xs, ",") + "]"
-	}
-	var lastArmor []string // model armors exported so far
-	for i := 0; i < *nk; i++ {
-		pick := func() ent {
-			if len(known) == 0 || r.Chance(1, 10) {
-				return ent{id: 9999999, addr: types.Address(crypto.GenerateEd25519PrivKey().PublicKey().Address())}
-			}
-			return known[r.Intn(len(known))]
-		}
-		// unobserved side traffic: selecting / reading the coinbase key must not change what any key does
-		if r.Chance(1, 3) {
-			if r.Bool() {
-				_ = kb.SetCoinbase(pick().addr)
-				stats["keybase/side/SetCoinbase"]++
-			} else {
-				_, _ = kb.GetCoinbase()
-				stats["keybase/side/GetCoinbase"]++
-			}
-		}
-		switch c := r.Intn(12); {
-		case c < 2:
-			p := pass()
-			kp, err := kb.Create(p)
+	for round := 0; round < 2; round++ {
+		kb := keys.NewInMemory()
+		if round == 1 { // the on-disk keybase behind its open-per-call wrapper
+			dir, err := os.MkdirTemp("", "verif-keys")
 			if err != nil {
-				emit("K create 9999999 "+hexs(p), "err "+list())
-				continue
+				panic(err)
 			}
-			e := ent{id: len(known), addr: kp.GetAddress()}
-			known = append(known, e)
-			cur[e.id] = p
-			stats["keybase/create"]++
-			emit(fmt.Sprintf("K create %d %s", e.id, hexs(p)), "ok "+list())
-		case c < 4:
-			e, m := pick(), r.Intn(len(msgs))
-			p := passFor(e.id)
-			sig, pub, err := kb.Sign(e.addr, p, msgs[m])
-			res := "err"
-			if err == nil {
-				res = fmt.Sprintf("sig verifies=%v", pub.VerifyBytes(msgs[m], sig))
+			defer os.RemoveAll(dir)
+			kb = keys.New("kb", dir)
+			stats["keybase/kind/lazy-on-disk"]++
+			emit("K reset", "ok []")
+		} else {
+			stats["keybase/kind/in-memory"]++
+		}
+		type ent struct {
+			id   int
+			addr types.Address
+		}
+		var known []ent               // keys ever created (id = order of creation)
+		armors := map[string]string{} // model armor "id/pass" -> real armor
+		long := strings.Repeat("long", 40)
+		// long passphrases that agree on a long prefix: a wrong one must not open what the right one sealed
+		passes := []string{"", "pw", "pässwörd-ünïcode", long, "x", long + "!", long[:len(long)-1] + "X", long[:72], long[:56] + "?"}
+		pass := func() string { return passes[r.Intn(len(passes))] }
+		cur := map[int]string{} // passphrase each key is currently sealed under (driver bookkeeping for generation only)
+		passFor := func(id int) string {
+			if p, ok := cur[id]; ok && r.Chance(7, 10) {
+				return p
 			}
-			stats["keybase/sign/"+strings.SplitN(res, " ", 2)[0]]++
-			emit(fmt.Sprintf("K sign %d %s %d", e.id, hexs(p), m), res+" "+list())
-		case c < 6:
-			e, np := pick(), pass()
-			if r.Chance(1, 4) {
-				np = "" // the empty passphrase is a passphrase like any other
+			return pass()
+		}
+		hexs := func(s string) string {
+			if s == "" {
+				return "."
 			}
-			op := passFor(e.id)
-			err := kb.Update(e.addr, op, np)
-			res := "ok"
-			if err != nil {
-				res = "err"
-			} else {
-				cur[e.id] = np
-			}
-			stats["keybase/update/"+res]++
-			emit(fmt.Sprintf("K update %d %s %s", e.id, hexs(op), hexs(np)), res+" "+list())
-			if err == nil { // ... and the key must now open under exactly the new passphrase, not under the old one
-				for _, p := range []string{np, op} {
-					m := r.Intn(len(msgs))
-					sig, pub, err := kb.Sign(e.addr, p, msgs[m])
-					res := "err"
-					if err == nil {
-						res = fmt.Sprintf("sig verifies=%v", pub.VerifyBytes(msgs[m], sig))
+			return fmt.Sprintf("%x", s)
+		}
+		list := func() string {
+			kps, _ := kb.List()
+			var xs []string
+			for _, kp := range kps {
+				for _, e := range known {
+					if e.addr.Equals(kp.GetAddress()) {
+						xs = append(xs, fmt.Sprint(e.id))
 					}
-					stats["keybase/sign-after-update/"+strings.SplitN(res, " ", 2)[0]]++
-					emit(fmt.Sprintf("K sign %d %s %d", e.id, hexs(p), m), res+" "+list())
 				}
 			}
-		case c < 7:
-			e := pick()
-			p := passFor(e.id)
-			err := kb.Delete(e.addr, p)
-			res := "ok"
-			if err != nil {
-				res = "err"
-			} else {
-				delete(cur, e.id)
+			sort.Slice(xs, func(i, j int) bool {
+				var a, b int
+				fmt.Sscan(xs[i], &a)
+				fmt.Sscan(xs[j], &b)
+				return a < b
+			})
+			return "[" + strings.Join(xs, ",") + "]"
+		}
+		var lastArmor []string // model armors exported so far
+		for i := 0; i < *nk; i++ {
+			pick := func() ent {
+				if len(known) == 0 || r.Chance(1, 10) {
+					return ent{id: 9999999, addr: types.Address(crypto.GenerateEd25519PrivKey().PublicKey().Address())}
+				}
+				return known[r.Intn(len(known))]
 			}
-			stats["keybase/delete/"+res]++
-			emit(fmt.Sprintf("K delete %d %s", e.id, hexs(p)), res+" "+list())
-		case c < 10:
-			e, ep := pick(), pass()
-			dp := passFor(e.id)
-			a, err := kb.ExportPrivKeyEncryptedArmor(e.addr, dp, ep, "hint")
-			res := "err"
-			if err == nil {
-				ma := fmt.Sprintf("%d/%s", e.id, hexs(ep))
-				armors[ma] = a
-				lastArmor = append(lastArmor, ma)
-				res = "armor " + ma
-			}
-			stats["keybase/export/"+strings.SplitN(res, " ", 2)[0]]++
-			emit(fmt.Sprintf("K export %d %s %s", e.id, hexs(dp), hexs(ep)), res+" "+list())
-		default:
-			if len(lastArmor) == 0 {
-				continue
-			}
-			ma := lastArmor[r.Intn(len(lastArmor))]
-			dp, np := pass(), pass()
-			if r.Bool() { // mostly the right passphrase
-				dp = ""
-				parts := strings.SplitN(ma, "/", 2)
-				if parts[1] != "." {
-					fmt.Sscanf(parts[1], "%x", &dp)
+			// unobserved side traffic: selecting / reading the coinbase key must not change what any key does
+			if r.Chance(1, 3) {
+				if r.Bool() {
+					_ = kb.SetCoinbase(pick().addr)
+					stats["keybase/side/SetCoinbase"]++
+				} else {
+					_, _ = kb.GetCoinbase()
+					stats["keybase/side/GetCoinbase"]++
 				}
 			}
-			_, err := kb.ImportPrivKey(armors[ma], dp, np)
-			res := "ok"
-			if err != nil {
-				res = "err"
-			} else {
-				var kid int
-				fmt.Sscan(strings.SplitN(ma, "/", 2)[0], &kid)
-				cur[kid] = np
+			switch c := r.Intn(12); {
+			case c < 2:
+				p := pass()
+				kp, err := kb.Create(p)
+				if err != nil {
+					emit("K create 9999999 "+hexs(p), "err "+list())
+					continue
+				}
+				e := ent{id: len(known), addr: kp.GetAddress()}
+				known = append(known, e)
+				cur[e.id] = p
+				stats["keybase/create"]++
+				emit(fmt.Sprintf("K create %d %s", e.id, hexs(p)), "ok "+list())
+			case c < 4:
+				e, m := pick(), r.Intn(len(msgs))
+				p := passFor(e.id)
+				sig, pub, err := kb.Sign(e.addr, p, msgs[m])
+				res := "err"
+				if err == nil {
+					res = fmt.Sprintf("sig verifies=%v", pub.VerifyBytes(msgs[m], sig))
+				}
+				stats["keybase/sign/"+strings.SplitN(res, " ", 2)[0]]++
+				emit(fmt.Sprintf("K sign %d %s %d", e.id, hexs(p), m), res+" "+list())
+			case c < 6:
+				e, np := pick(), pass()
+				if r.Chance(1, 4) {
+					np = "" // the empty passphrase is a passphrase like any other
+				}
+				op := passFor(e.id)
+				err := kb.Update(e.addr, op, np)
+				res := "ok"
+				if err != nil {
+					res = "err"
+				} else {
+					cur[e.id] = np
+				}
+				stats["keybase/update/"+res]++
+				emit(fmt.Sprintf("K update %d %s %s", e.id, hexs(op), hexs(np)), res+" "+list())
+				if err == nil { // ... and the key must now open under exactly the new passphrase, not under the old one
+					for _, p := range []string{np, op} {
+						m := r.Intn(len(msgs))
+						sig, pub, err := kb.Sign(e.addr, p, msgs[m])
+						res := "err"
+						if err == nil {
+							res = fmt.Sprintf("sig verifies=%v", pub.VerifyBytes(msgs[m], sig))
+						}
+						stats["keybase/sign-after-update/"+strings.SplitN(res, " ", 2)[0]]++
+						emit(fmt.Sprintf("K sign %d %s %d", e.id, hexs(p), m), res+" "+list())
+					}
+				}
+			case c < 7:
+				e := pick()
+				p := passFor(e.id)
+				err := kb.Delete(e.addr, p)
+				res := "ok"
+				if err != nil {
+					res = "err"
+				} else {
+					delete(cur, e.id)
+				}
+				stats["keybase/delete/"+res]++
+				emit(fmt.Sprintf("K delete %d %s", e.id, hexs(p)), res+" "+list())
+			case c < 10:
+				e, ep := pick(), pass()
+				dp := passFor(e.id)
+				a, err := kb.ExportPrivKeyEncryptedArmor(e.addr, dp, ep, "hint")
+				res := "err"
+				if err == nil {
+					ma := fmt.Sprintf("%d/%s", e.id, hexs(ep))
+					armors[ma] = a
+					lastArmor = append(lastArmor, ma)
+					res = "armor " + ma
+				}
+				stats["keybase/export/"+strings.SplitN(res, " ", 2)[0]]++
+				emit(fmt.Sprintf("K export %d %s %s", e.id, hexs(dp), hexs(ep)), res+" "+list())
+			default:
+				if len(lastArmor) == 0 {
+					continue
+				}
+				ma := lastArmor[r.Intn(len(lastArmor))]
+				dp, np := pass(), pass()
+				if r.Bool() { // mostly the right passphrase
+					dp = ""
+					parts := strings.SplitN(ma, "/", 2)
+					if parts[1] != "." {
+						fmt.Sscanf(parts[1], "%x", &dp)
+					}
+				}
+				_, err := kb.ImportPrivKey(armors[ma], dp, np)
+				res := "ok"
+				if err != nil {
+					res = "err"
+				} else {
+					var kid int
+					fmt.Sscan(strings.SplitN(ma, "/", 2)[0], &kid)
+					cur[kid] = np
+				}
+				stats["keybase/import/"+res]++
+				emit(fmt.Sprintf("K import %s %s %s", ma, hexs(dp), hexs(np)), res+" "+list())
+				if err == nil { // the imported key opens under the passphrase it was imported under, and not under the armor's
+					var kid int
+					fmt.Sscan(strings.SplitN(ma, "/", 2)[0], &kid)
+					for _, e := range known {
+						if e.id != kid {
+							continue
+						}
+						for _, p := range []string{np, dp} {
+							m := r.Intn(len(msgs))
+							sig, pub, err := kb.Sign(e.addr, p, msgs[m])
+							res := "err"
+							if err == nil {
+								res = fmt.Sprintf("sig verifies=%v", pub.VerifyBytes(msgs[m], sig))
+							}
+							stats["keybase/sign-after-import/"+strings.SplitN(res, " ", 2)[0]]++
+							emit(fmt.Sprintf("K sign %d %s %d", e.id, hexs(p), m), res+" "+list())
+						}
+					}
+				}
 			}
-			stats["keybase/import/"+res]++
-			emit(fmt.Sprintf("K import %s %s %s", ma, hexs(dp), hexs(np)), res+" "+list())
 		}
 	}
 	js, _ := json.MarshalIndent(stats, "", " ")
